@@ -1,6 +1,8 @@
 package checks
 
 import (
+	"os"
+	"strings"
 	"bytes"
 	"context"
 	"errors"
@@ -204,7 +206,13 @@ func c07Body(r *simcore.Run) {
 					pid, _ := rep.st.PrecommittedAlh()
 					if pid > cid && r.Pct(50) {
 						upto := cid + 1 + uint64(r.Intn(int(pid-cid)))
-						if err := rep.st.AllowCommitUpto(upto); err != nil && !errors.Is(err, store.ErrAlreadyClosed) {
+						err := rep.st.AllowCommitUpto(upto)
+						if os.Getenv("VERIF_REPLAY") != "" {
+							c2, _ := rep.st.CommittedAlh()
+							p2, _ := rep.st.PrecommittedAlh()
+							r.Logf("%s: AllowCommitUpto(%d) with committed %d precommitted %d -> %v; now committed %d precommitted %d", name, upto, cid, pid, err, c2, p2)
+						}
+						if err != nil && !errors.Is(err, store.ErrAlreadyClosed) {
 							r.Violation("allow-commit", "", "AllowCommitUpto(%d) with committed %d, precommitted %d failed: %v", upto, cid, pid, err)
 						}
 					}
@@ -214,6 +222,11 @@ func c07Body(r *simcore.Run) {
 						since := cid + 1 + uint64(r.Intn(int(pid-cid)))
 						_, err := rep.st.DiscardPrecommittedTxsSince(since)
 						r.Logf("%s: DiscardPrecommittedTxsSince(%d) with committed %d precommitted %d -> %v", name, since, cid, pid, err)
+						if err != nil && errors.Is(err, store.ErrIllegalState) && strings.Contains(err.Error(), "allowed to be committed") {
+							// a granted commit allowance covers part of the range: refused as a whole, nothing discarded
+							r.Probe("c07-discard-refused-allowed-range")
+							continue
+						}
 						if err != nil && !errors.Is(err, store.ErrAlreadyClosed) && !errors.Is(err, store.ErrIllegalArguments) {
 							r.Violation("discard", "", "DiscardPrecommittedTxsSince(%d) failed: %v", since, err)
 						}
@@ -274,6 +287,13 @@ func c07Body(r *simcore.Run) {
 			}
 			t := r.Sched.Go("rw-drain", worker("rw-drain"))
 			t.Join()
+			// the primary committed all of it: what is precommitted may be committed, and committing
+			// (done by the syncer of a synced store) takes time; the window of active transactions
+			// only moves on once it happened
+			if pid, _ := rep.st.PrecommittedAlh(); pid > 0 {
+				rep.st.AllowCommitUpto(pid)
+			}
+			r.Sched.Sleep(100 * time.Millisecond)
 		}
 		pid, _ := rep.st.PrecommittedAlh()
 		if err := rep.st.AllowCommitUpto(pid); err != nil {
